@@ -40,6 +40,8 @@ type Prog struct {
 	needAppendAxiom map[string]bool
 	scc     map[string]int
 	rawOrder []string
+	atoiAxiom bool
+	jsonAxiom bool
 	setupErrors []string
 	lemmas  []*lemmaInfo
 	lemmasBuilt bool
